@@ -378,11 +378,12 @@ def m_asin(I, x):
 def _math_module(I):
     from .interp import BuiltinFn
 
-    saved = bm.EXTRA_MODULES.pop("math")
-    try:
-        base = bm.make_modules(I)["math"]
-    finally:
-        bm.EXTRA_MODULES["math"] = saved
+    import sys
+
+    # the base `math` model is built by builtins_model.make_modules just before the EXTRA_MODULES makers run
+    base = sys._getframe(1).f_locals.get("mods", {}).get("math")
+    if base is None:
+        raise PyvcError("models_geom: base math module not found")
     attrs = dict(base.attrs)
     deg = _rat(180.0) / PI
     attrs.update(
@@ -483,7 +484,12 @@ def install(reg):
             r = mine(*a)
             if r is NotHandled:
                 if prev is None:
-                    raise PyvcError(f"{slot}: operation on {a[1:]} not modelled")
+                    if slot == "getattr_fallback":
+                        I, obj, name = a
+                        if obj is None or isinstance(obj, (SV, int, float, bool, fractions.Fraction, Infinity)):
+                            if not name.startswith("__") and name not in ("real", "imag", "numerator", "denominator", "is_integer", "conjugate"):
+                                I.raise_("AttributeError", name)
+                    raise PyvcError(f"{slot}: operation on {a[1:]} not modelled (line {a[0].lineno})")
                 return prev(*a)
             return r
 
